@@ -21,7 +21,8 @@ TRUSTED = ['Model/ContainerV3 + Model/Construct + Model/Reader as models of pars
            '(Binaries ids, Events with cm/tid/p/pid, StringIndex items); OsLogEvent decoding is compared only on '
            '(index, thread id, process, pid, composed message) — the record model belongs to C16']
 from .. import rdir as _rdir  # noqa: E402
-TRUSTED = TRUSTED + [_rdir.TRUSTED]
+from .. import kdinit as _kdinit  # noqa: E402
+TRUSTED = TRUSTED + [_rdir.TRUSTED, _kdinit.TRUSTED]
 ASSUMPTIONS = ['bytes objects hold values 0..255',
                '"the dump\'s string index" is read as: the LAST log-strings block (the code overwrites log_strings per block); '
                'an assumption of the specification, not a finding',
@@ -388,6 +389,7 @@ def oracle_blocks(c):
 def correspondence(rep, rng, tier):
     from .. import rdir
     rdir.enable(rep)
+    _kdinit.init_section(rep)
     quick = tier == 'quick'
     from .. import pipeline as _PL
     _PL.section_e2e(rep, rng, tier, n=(150 if quick else 3000), plain=0.7, only_v3=True)
@@ -458,6 +460,7 @@ def correspondence(rep, rng, tier):
         f['threads'] = ct.add_junk(rng, f['threads'])
     run_section(rep, 'encv3', encs, ct.line_enc_v3, lambda f: ct.v3_bytes(f).hex(),
                 rule='Lean Spec.encodeV3 output == the harness\'s own Python encoder, byte for byte')
+    _kdinit.metadata_section(rep, rng, tier)
 
 
 def replay(path):
@@ -468,6 +471,14 @@ def replay(path):
     if sec == 'end-to-end':
         from .. import pipeline as _PL
         return _PL.replay_e2e(case, 'C03', path)
+    if sec in ('kd-init-ir', 'kd-init-metadata'):
+        res = _kdinit.replay(rp)
+        if res:
+            print('failing:', res)
+            print(f'VIOLATION property=C03 replay={path}')
+            return 1
+        print('no violation on this input')
+        return 0
     if sec == 'v3-blocks':
         info, evs, err, tables = run_blocks(case)
         print('recipe:', case['rc'])
@@ -516,7 +527,7 @@ LEVEL_TEXT = ('Lean theorems over the reader/construct model of parse_v3 against
               'map and those records); the model is tied to the code by differential runs on generated dumps with real binary '
               'plists incl. all parser attributes, parse sequences, the public kevents/os_log_events entry points, and '
               'formatted_traces on version-3 dumps (section end-to-end, incl. blocks that raise behind the last chunk and cuts).'
-              " TRANSLATION TIE: the source text of parse / parse_v2 / parse_v3 (WHOLE: header, scans, thread map, chunk loop, reader.seek(-8, 1), the additional-data range, the attribute resets, the block loop with its if/elif chain on block.tag, the log loop) / seek_until / set_thread_map is translated on every run (tools/gen_pyir_rd.py, pure ast) into the Python-subset IR of Model/PyIRRd (statements over the model's reader: read, seek(-k, 1), while/for/break/raise/yield, bytes slices and comparisons, for-loops over the parsed blocks and the raw log events, the per-branch operations on the parser attributes, construct parsers / plistlib.loads / from_raw_log_event as primitives; big-step interpreter); source_is_expected_ir: the generated program is the one of Spec/PyIRRdExpected; parse_is_interpreted_source: for EVERY byte string and prior state the model's parse IS that program run by the interpreter, with the same read calls — nothing of parse_v3 is hand-modelled any more; per piece: seek_until_ir_eq_model, parse_v3_tail_ir_eq_model (the interpreted tail = tailV3 from any state), parse_v3_ir_eq_model.")
+              " TRANSLATION TIE: the source text of parse / parse_v2 / parse_v3 (WHOLE: header, scans, thread map, chunk loop, reader.seek(-8, 1), the additional-data range, the attribute resets, the block loop with its if/elif chain on block.tag, the log loop) / seek_until / set_thread_map is translated on every run (tools/gen_pyir_rd.py, pure ast) into the Python-subset IR of Model/PyIRRd (statements over the model's reader: read, seek(-k, 1), while/for/break/raise/yield, bytes slices and comparisons, for-loops over the parsed blocks and the raw log events, the per-branch operations on the parser attributes, construct parsers / plistlib.loads / from_raw_log_event as primitives; big-step interpreter); source_is_expected_ir: the generated program is the one of Spec/PyIRRdExpected; parse_is_interpreted_source: for EVERY byte string and prior state the model's parse IS that program run by the interpreter, with the same read calls — nothing of parse_v3 is hand-modelled any more; per piece: seek_until_ir_eq_model, parse_v3_tail_ir_eq_model (the interpreted tail = tailV3 from any state), parse_v3_ir_eq_model.  The CONSTRUCTOR KdBufParser.__init__ is translated too (attribute initialisers sorted by attribute; part of the same generated program, so source_is_expected_ir covers it): kd_init_ir_eq_model — for every combination of given / None arguments and whatever the attributes held before, the interpreted constructor binds a given table to the caller's dict ITSELF (else a new empty dict) and leaves exactly the metadata {} (trace_codes '', kernel_extensions {'Binaries': []}, dyld_modules {}, images {}, processes {}, v3_header None) that the reader model parse / parseV3 / tailV3 starts from; kd_init_defaults (omitted = None; a third argument TypeError); kd_fresh_parser_parse (the interpreted parse on that object = the hand model from <given tables, {}>); kd_init_no_arguments (= EndToEnd.freshParser).  Sections kd-init-ir (driver rdinit) and kd-init-metadata (code only).")
 LEVEL_NOTE = ('plistlib.loads and OsLogEvent decoding are opaque parameters of the model (BlockOk / LogsResolve state what must load); '
               '"the dump\'s string index" = the LAST string block (assumption of the specification). Trusted: Lean kernel, '
               'Model/Construct + Model/Reader as models of construct/BytesIO (diffed, not verified), Spec.encodeV3 as the meaning of '
